@@ -46,6 +46,7 @@ type opJ struct {
 
 type jobJ struct {
 	Kind    string   `json:"kind"` // "hist" | "vc"
+	At      []int    `json:"at"`   // hist: query after these steps only (1-based; empty = after every step)
 	Values  []string `json:"values"`
 	Batches [][]int  `json:"batches"`
 	Steps   []opJ    `json:"steps"`
@@ -218,6 +219,17 @@ func childHist(job *jobJ, skip map[string]bool) error {
 		if len(now) == 0 {
 			continue
 		}
+		if len(job.At) > 0 {
+			want := false
+			for _, a := range job.At {
+				if a == i+1 {
+					want = true
+				}
+			}
+			if !want {
+				continue
+			}
+		}
 		// queries after this step
 		for _, q := range job.Queries {
 			h.run(fmt.Sprintf("%d|%s|seq", i+1, q), q, 1, nil, skip)
@@ -263,6 +275,11 @@ func (h *histEnv) run(key, q string, par int, sched []int, skip map[string]bool)
 		rctx.Cancel()
 	}
 	var g *gate
+	if sched != nil && !ev.Vec {
+		// sequential legs: the assignment of objects to legs cannot matter for these
+		// aggregates beyond what C08 checks; run free
+		sched = nil
+	}
 	if sched != nil {
 		site := "meta.Lister.Pull.enter"
 		if q == "cbk" {
